@@ -43,7 +43,8 @@ def getCollectionValue(collection, what):
     elif collection.isMap() and what == "keys":
         return sorted(collection.value.keys())
     elif collection.isMap() and what == "values":
-        return sorted(collection.value.values())
+        # same order as `for v in values m`: by key
+        return [collection.value[k] for k in sorted(collection.value.keys())]
     elif collection.isMap():
         return convertEntries({k: collection.value[k]
                                for k in sorted(collection.value.keys())})
